@@ -29,7 +29,8 @@ ProjCache(c) ==
         att |-> c.att]
 Proj(st) ==
   [topics |-> [t \in Topics |-> [exists |-> st.topics[t].exists, seq |-> st.topics[t].seq, delId |-> st.topics[t].delId,
-                                  owner |-> st.topics[t].owner, auth |-> st.topics[t].auth, anon |-> st.topics[t].anon]],
+                                  owner |-> st.topics[t].owner, auth |-> st.topics[t].auth, anon |-> st.topics[t].anon,
+                                  public |-> st.topics[t].public]],
    subs   |-> [t \in Topics |-> [u \in Users |-> [st |-> st.subs[t][u].st, want |-> st.subs[t][u].want, given |-> st.subs[t][u].given,
                                                    read |-> st.subs[t][u].read, recv |-> st.subs[t][u].recv, delId |-> st.subs[t][u].delId]]],
    msgs   |-> [t \in Topics |-> [i \in DOMAIN st.msgs[t] |-> [seq |-> st.msgs[t][i].seq, from |-> st.msgs[t][i].from,
